@@ -130,6 +130,19 @@ def run(ctx):
             sc["id"] = "qc%d" % len(scs)
             sc["family"] = "sequence"
             scs.append(sc)
+    # SLC / MicroLogix sessions: data-file reads and the data-log queue (one connected request per record + one to clear)
+    from . import c18
+    for j in range(4):
+        tab = c18.table(rnd)
+        tab[str(10000 + 1)] = {"type": "DLG", "words": [], "recs": [[ord(ch) for ch in "rec%d,%d" % (k, rnd.randint(0, 999))] for k in range(rnd.choice([2, 5, 6]))]}
+        rd = lambda e: {"api": "read", "tags": ["N7:%d" % e], "intent": {"items": [{"pos": 0, "bit": -1, "sub": "", "count": 1, "valid": 1, "value": {"none": 1},
+                                                                                   "ftype": "N", "file": 7, "elem": e}]}}
+        calls = [{"api": "open"}, rd(1), {"api": "get_datalog_queue", "num": rnd.choice([1, 3]), "queue": 1}, rd(2),
+                 {"api": "get_datalog_queue", "num": 2, "queue": 1}, rd(3), {"api": "close"}]
+        if j % 2:
+            calls = calls[:1] + [{"api": "advance_sequence", "n": 65535 - 3 - j}] + calls[1:]
+        scs.append({"id": "qs%d" % j, "family": "sequence", "target": {"policy": rnd.choice(["LargeOK", "LargeRefused"]), "identity": S.identity(name="1766-L32BWA")},
+                    "slc": tab, "driver": {"kind": "slc", "path": "10.3.3.9", "route": [S.port_seg("bp", 0)]}, "calls": calls})
     # members of one multi-service call consuming a multiple of 65535 counts: the scaled counterexample of the design
     # model replayed at real scale.  Quick tier: only when the model, instantiated with the measured design, admits it.
     design_breaks = any(k.startswith("design_counterexample") for k in ctx.extra)
